@@ -411,8 +411,8 @@ def _aff_key(node, env, depth=0):
         return ("raw", unparse(node2))
 
 
-def rule_r3(chk):
-    chk.rule("C02-R3",
+def rule_r3(chk, rid="C02-R3"):
+    chk.rule(rid,
              "for every function/Jacobian evaluator pair, the plain equator and the aldi context are evaluated at "
              "the same set of (data array, column) points and after the same state update", floor=8)
     # ---- steady: SteadyEvaluator.eval / eval_func / eval_jacob
@@ -424,7 +424,7 @@ def rule_r3(chk):
         first = body[0]
         upd = isinstance(first, ast.Expr) and isinstance(first.value, ast.Call) and dotted(first.value.func) == "self._update_steady_array" \
             and len(first.value.args) == 1 and isinstance(first.value.args[0], ast.Name) and first.value.args[0].id == params(f)[1]
-        chk.ob("C02-R3", f"steadiers.evaluators.SteadyEvaluator.{q}[update first]", bool(upd),
+        chk.ob(rid, f"steadiers.evaluators.SteadyEvaluator.{q}[update first]", bool(upd),
                "first effect is self._update_steady_array(<guess parameter>)" if upd else
                "evaluator does not refresh the steady array from the guess before evaluating", ev.loc(f))
         eq = _calls_in(f, lambda n: dotted(n.func) == "self._equator.eval")
@@ -433,7 +433,7 @@ def rule_r3(chk):
         if q == "eval" and not (eq and jc):
             raise AnalysisError("anchor vanished: SteadyEvaluator.eval no longer calls both equator and jacobian")
         ok = len(argsets) == 1
-        chk.ob("C02-R3", f"steadiers.evaluators.SteadyEvaluator.{q}[same point]", ok,
+        chk.ob(rid, f"steadiers.evaluators.SteadyEvaluator.{q}[same point]", ok,
                f"equator/jacobian called with {sorted(argsets)}", ev.loc(f))
     # ---- steady: class pairs
     eqm = chk.repo.mod("irispie.steadiers._equators")
@@ -474,7 +474,7 @@ def rule_r3(chk):
         ok = pe == pj and len(pe) > 0
         def showpts(p):
             return sorted((a, alg.show_key(k) if k and k[0] in ("P", "R") else str(k)) for a, k in p)
-        chk.ob("C02-R3", f"steadiers.{eqc}.eval~{jcc}.eval[evaluation points]", ok,
+        chk.ob(rid, f"steadiers.{eqc}.eval~{jcc}.eval[evaluation points]", ok,
                f"equator evaluated at {showpts(pe)}; aldi context evaluated at {showpts(pj)}", jcm.loc(fj),
                facts={"equator_points": showpts(pe), "jacobian_points": showpts(pj)})
     # ---- stacked time
@@ -487,11 +487,11 @@ def rule_r3(chk):
         raise AnalysisError("anchor vanished: create_evaluator builds exactly one Equator and one Jacobian")
     ecols = [unparse(k.value) for k in eqc[0].keywords if k.arg == "columns"]
     jcols = [unparse(k.value) for k in jcc[0].keywords if k.arg == "columns_to_eval"]
-    chk.ob("C02-R3", "stacked_time._evaluators.create_evaluator[columns]", bool(ecols) and ecols == jcols,
+    chk.ob(rid, "stacked_time._evaluators.create_evaluator[columns]", bool(ecols) and ecols == jcols,
            f"Equator(columns={ecols}) vs Jacobian(columns_to_eval={jcols})", st.loc(ce))
     eeq = unparse(eqc[0].args[0]) if eqc[0].args else None
     jeq = unparse(jcc[0].args[0]) if jcc[0].args else None
-    chk.ob("C02-R3", "stacked_time._evaluators.create_evaluator[equations]", eeq is not None and eeq == jeq,
+    chk.ob(rid, "stacked_time._evaluators.create_evaluator[equations]", eeq is not None and eeq == jeq,
            f"Equator({eeq}, …) vs Jacobian({jeq}, …)", st.loc(ce))
     for q in ("eval_func_jacob", "eval_func", "eval_jacob"):
         f = st.func(f"create_evaluator.{q}")
@@ -499,7 +499,7 @@ def rule_r3(chk):
         eq = _calls_in(f, lambda n: dotted(n.func) == "equator.eval")
         jc = _calls_in(f, lambda n: dotted(n.func) == "jacobian.eval")
         argsets = {tuple(unparse(a) for a in c.args) for c in eq + jc}
-        chk.ob("C02-R3", f"stacked_time._evaluators.create_evaluator.{q}[same point]", len(argsets) == 1,
+        chk.ob(rid, f"stacked_time._evaluators.create_evaluator.{q}[same point]", len(argsets) == 1,
                f"equator/jacobian called with {sorted(argsets)}", st.loc(f))
     # ---- stacked-time atom factory: data column = token.shift + columns_to_eval, seed = 1
     jm = chk.repo.mod("irispie.stacked_time._jacobians")
@@ -513,7 +513,7 @@ def rule_r3(chk):
             ok = unparse(a) == "token.qid" and alg.equal(alg.ToIR()(b), add(sym("token.shift"), sym("columns_to_eval")))
         except Undecided:
             ok = None
-    chk.ob("C02-R3", "stacked_time._jacobians.Jacobian._atom_factory[data index]", ok,
+    chk.ob(rid, "stacked_time._jacobians.Jacobian._atom_factory[data index]", ok,
            "atom reads (qid, shift + columns_to_eval), the cells PlainEquator's x[qid][t+shift] reads", jm.loc(f))
 
 
